@@ -16,6 +16,10 @@ func verifTrace(string, any, uint64, uint64) {}
 
 func verifLocker() sync.Locker { return &sync.Mutex{} }
 
+func verifRLock(_ context.Context, mu *sync.RWMutex) { mu.RLock() }
+
+func verifWLock(_ context.Context, mu *sync.RWMutex) { mu.Lock() }
+
 func verifRing(*ring) {}
 
 func verifPool(*pool) {}
